@@ -157,7 +157,7 @@ const c06Rule = "inputs: valid programs (C03 generator), 1..4 token/byte-level m
 
 func TestC06(t *testing.T) {
 	hx.Run(t, hx.Prop[acceptCase]{
-		ID: "C06", Sub: "accepted", Rule: c06Rule, Checks: hx.Scale(15000, 1000000),
+		ID: "C06", Sub: "accepted", Rule: c06Rule, Checks: hx.Scale(15000, 6000000),
 		Gen: genAcceptCase, Judge: judgeAcceptCase,
 	})
 }
